@@ -1,22 +1,27 @@
-(* The decidable classes of (literal, target type) shapes on which Context::lit_into_ty / ident_into_ty still panic although
-   the literal is well-typed IDL, AFTER the repairs of F-14g (container literal inside container literal), F-14i (const of
-   set type), F-14l (enum member / const through a typedef'd target) and of the missing arms (Int at OrderedF64, string
-   const at a std String field).  What is left (property C14: the generator must not panic):
+(* The decidable classes of (literal, target type) shapes on which Context::lit_into_ty / ident_into_ty panic although the
+   literal is well-typed IDL.  The predicate follows the SOURCE AS IT IS: every repair that tools/extract_gen.py finds in
+   context.rs (regenerated flags arc_ok, const_inline_present, double_sign_run_ok, double_exponent_ok, map_key_rvalue,
+   string_at_bytesvec_ok) takes its shapes out of the classes.  What is left:
 
-     PCPathConvert     a const / enum-member reference that ident_into_ty cannot convert: panic!("invalid convert").  Left:
-                       a REFERENCE to a const of list / set / map type (its CodegenTy is Array / LazyStaticRef, never the
-                       field's Vec / AHashSet / AHashMap), a const of a typedef type used at the aliased type.  path_ok is a
-                       sufficient condition: the target itself, or the end of the target's typedef chain, is the const's type
-                       or one of the conversions; a const whose type is a typedef strictly INSIDE the chain is accepted by the
-                       generator but not by path_ok.
-     PCNestedMap       a map-typed target where only lit_into_ty looks: a map KEY that is a map (no Rust map is hashable),
-                       an element of a const Array, the definition of a const that is no lazy static.
-     PCNoArm           any literal at a `rust_wrapper_arc` type, a string at `binary` with rust_type = "vec".
+     PCPathConvert     a const / enum-member reference that ident_into_ty cannot convert: panic!("invalid convert").  The path's
+                       type must occur on the walk through the target's NewType (and Arc) layers, or convert at its end
+                       (Str -> FastStr / String, enum -> iN).  Left out: a const of a TYPEDEF type used at the aliased type
+                       (no arm looks through the newtype of the SOURCE).
+     PCNestedMap       a map-typed target where only lit_into_ty looks: an element of a const Array, the definition of a
+                       const that is no lazy static; a map KEY that is a map literal, unless mk_map lowers keys through
+                       lit_as_rvalue (map_key_rvalue).
+     PCNoArm           a string at `binary` with rust_type = "vec", unless the (String, Vec(U8)) arm exists
+                       (string_at_bytesvec_ok); any literal at a `rust_wrapper_arc` type while there is no Arc arm.
      PCConstContainer  a StaticRef / LazyStaticRef type (const context only).
      PCDangling        a reference to a const that does not exist (model artefact).
+     PCFloatSigns / PCFloatExp   `-+x` / an exponent with several signs or 0x digits while parse_double does not rewrite them.
 
-   [pclass_into en l ty = None] is a SUFFICIENT condition for the lowering to succeed on a well-typed literal
-   (Proofs/LitP.v); the three open classes have a witness that they do panic (Proofs/LitTopP.v).  No proofs here. *)
+   A reference to a const of list / set / map type at a container-typed target is lowered from the const's LITERAL at the
+   target type (const_inline_present): its class is the class of that literal there -- [ccls], tied by unfolding fuel in
+   [pclass_n] (running out of fuel counts as class-free: the specification then has no value either).
+
+   [pclass_n .. = None] is a SUFFICIENT condition for the lowering to succeed on a well-typed literal (Proofs/LitP.v); the
+   classes that are open in the tree have a witness that they do panic (Proofs/LitTopP.v).  No proofs here. *)
 From PVGen Require Export Lit.
 
 Inductive pclass := PCPathConvert | PCNestedMap | PCNoArm | PCConstContainer | PCDangling
@@ -40,111 +45,134 @@ Section Class.
   Definition is_string_cty (ty : cty) : bool := match ty with CString => true | _ => false end.
   Definition is_arc_cty (ty : cty) : bool := match ty with CArc _ => true | _ => false end.
 
-  (* may the path, whose CodegenTy is [it], be used at [ty]?  Syntactically the target, or the type at the end of the target's
-     typedef chain, or one of the conversions of ident_into_ty there.  (A const whose type is a typedef strictly inside
-     the chain is accepted by the generator too; it is left out of this sufficient condition.) *)
+  (* may the path, whose CodegenTy is [it], be used at [ty]?  Its type occurs on the walk through the target's layers
+     (Lit.chain_of: the test ident_into_ty makes at every level), or one of the conversions applies at the end of the walk *)
   Definition path_ok (it ty : cty) : bool :=
-    let fin := peel S (pfuel S) ty in
-    cty_eqb it ty || (cty_eqb it fin && negb (is_arc_cty fin)) || (is_str_cty it && (is_faststr_cty fin || is_string_cty fin))
+    let fin := tfin S ty in
+    (match chain_of S it ty with Some _ => true | None => false end)
+    || (is_str_cty it && (is_faststr_cty fin || is_string_cty fin))
     || (match ckind S it with Some CPAdtEnum => is_int_cty fin | _ => false end).
 
-  (* [en]: is the literal looked at by lit_as_rvalue (true) or by lit_into_ty only (false: map keys, elements of a const Array,
-     the definition of a const that is no lazy static) *)
-  Fixpoint pclass_into (en : bool) (l : lit) (ty : cty) {struct l} : option pclass :=
-    match l with
-    | LMember e _ => if path_ok (CAdt e) ty then None else Some PCPathConvert
-    | LConst c =>
-        match ident_ty_of_const S c with
-        | Some it => if path_ok it ty then None else Some PCPathConvert
-        | None => Some PCDangling
-        end
-    | _ =>
-        match (match l with
-               | LFloat s => if float_exp_plain s && float_sign_plain s then None
-                             else Some (if float_exp_plain s then PCFloatSigns else PCFloatExp)
-               | _ => None
-               end) with
-        | Some c => Some c
-        | None =>
-        match peel S (pfuel S) ty with
-        | CArc _ => Some PCNoArm
-        | CMap kt vt | CBTreeMap kt vt =>
-            if en || is_nt S ty then
+  Section Into.
+    (* the class of the literal of const item c, lowered by lit_as_rvalue at a target type *)
+    Variable ccls : nat -> cty -> option pclass.
+
+    (* [en]: is the literal looked at by lit_as_rvalue (true) or by lit_into_ty only (false: elements of a const Array, the
+       definition of a const that is no lazy static, map keys before the repair) *)
+    Fixpoint pclass_into (en : bool) (l : lit) (ty : cty) {struct l} : option pclass :=
+      match l with
+      | LMember e _ => if path_ok (CAdt e) ty then None else Some PCPathConvert
+      | LConst c =>
+          match ident_ty_of_const S c with
+          | Some it =>
+              if const_inline_present && is_container_c it && negb (cty_eqb it ty) then ccls c ty
+              else if path_ok it ty then None else Some PCPathConvert
+          | None => Some PCDangling
+          end
+      | _ =>
+          match (match l with
+                 | LFloat s => if float_exp_plain s && float_sign_plain s then None
+                               else Some (if float_exp_plain s then PCFloatSigns else PCFloatExp)
+                 | _ => None
+                 end) with
+          | Some c => Some c
+          | None =>
+          match tfin S ty with
+          | CArc _ => Some PCNoArm
+          | CMap kt vt | CBTreeMap kt vt =>
+              if (if fa_of S ty then true else en || is_nt S ty) then
+                match l with
+                | LMap m =>
+                    (fix go (m : list (lit * lit)) : option pclass :=
+                       match m with
+                       | [] => None
+                       | (k, v) :: r =>
+                           match pclass_into map_key_rvalue k kt with
+                           | Some c => Some c
+                           | None => match pclass_into true v vt with Some c => Some c | None => go r end
+                           end
+                       end) m
+                | _ => None
+                end
+              else Some PCNestedMap
+          | CStaticRef _ | CLazyStaticRef _ => Some PCConstContainer
+          | CVec inner | CSet inner | CBTreeSet inner =>
               match l with
-              | LMap m =>
+              | LList els =>
+                  (fix go (els : list lit) : option pclass :=
+                     match els with
+                     | [] => None
+                     | x :: r => match pclass_into true x inner with Some c => Some c | None => go r end
+                     end) els
+              | LString _ =>
+                  match tfin S ty with
+                  | CVec CU8 => if string_at_bytesvec_ok then None else Some PCNoArm
+                  | _ => Some PCNoArm
+                  end
+              | _ => None
+              end
+          | CArray inner =>
+              match l with
+              | LList els =>
+                  (fix go (els : list lit) : option pclass :=
+                     match els with
+                     | [] => None
+                     | x :: r => match pclass_into false x inner with Some c => Some c | None => go r end
+                     end) els
+              | _ => None
+              end
+          | CAdt n =>
+              match l, item S n with
+              | LMap m, Some (IStruct fs _ _) =>
+                  (* every value, at the type of every member its key names *)
                   (fix go (m : list (lit * lit)) : option pclass :=
                      match m with
                      | [] => None
                      | (k, v) :: r =>
-                         match pclass_into false k kt with
+                         match
+                           (match k with
+                            | LString s =>
+                                (fix over (fs : list lfield) : option pclass :=
+                                   match fs with
+                                   | [] => None
+                                   | f :: fr =>
+                                       match (if bytes_eqb s (lf_name f) then pclass_into true v (item_cty (lf_ty f)) else None) with
+                                       | Some c => Some c
+                                       | None => over fr
+                                       end
+                                   end) fs
+                            | _ => None
+                            end)
+                         with
                          | Some c => Some c
-                         | None => match pclass_into true v vt with Some c => Some c | None => go r end
+                         | None => go r
                          end
                      end) m
-              | _ => None
+              | _, _ => None
               end
-            else Some PCNestedMap
-        | CStaticRef _ | CLazyStaticRef _ => Some PCConstContainer
-        | CVec inner | CSet inner | CBTreeSet inner =>
-            match l with
-            | LList els =>
-                (fix go (els : list lit) : option pclass :=
-                   match els with
-                   | [] => None
-                   | x :: r => match pclass_into true x inner with Some c => Some c | None => go r end
-                   end) els
-            | LString _ => Some PCNoArm
-            | _ => None
-            end
-        | CArray inner =>
-            match l with
-            | LList els =>
-                (fix go (els : list lit) : option pclass :=
-                   match els with
-                   | [] => None
-                   | x :: r => match pclass_into false x inner with Some c => Some c | None => go r end
-                   end) els
-            | _ => None
-            end
-        | CAdt n =>
-            match l, item S n with
-            | LMap m, Some (IStruct fs _ _) =>
-                (* every value, at the type of every member its key names *)
-                (fix go (m : list (lit * lit)) : option pclass :=
-                   match m with
-                   | [] => None
-                   | (k, v) :: r =>
-                       match
-                         (match k with
-                          | LString s =>
-                              (fix over (fs : list lfield) : option pclass :=
-                                 match fs with
-                                 | [] => None
-                                 | f :: fr =>
-                                     match (if bytes_eqb s (lf_name f) then pclass_into true v (item_cty (lf_ty f)) else None) with
-                                     | Some c => Some c
-                                     | None => over fr
-                                     end
-                                 end) fs
-                          | _ => None
-                          end)
-                       with
-                       | Some c => Some c
-                       | None => go r
-                       end
-                   end) m
-            | _, _ => None
-            end
-        | _ => None
-        end
-        end
+          | _ => None
+          end
+          end
+      end.
+  End Into.
+
+  (* unfolding fuel f: references to container consts are followed f levels deep (evi f of the model) *)
+  Fixpoint pclass_n (fuel : nat) (en : bool) (l : lit) (ty : cty) {struct fuel} : option pclass :=
+    match fuel with
+    | O => None
+    | Datatypes.S f =>
+        pclass_into (fun c ty' => match nth_error (ls_consts S) c with
+                                  | Some (_, lc) => pclass_n f true lc ty'
+                                  | None => Some PCDangling
+                                  end) en l ty
     end.
+  Definition cfuel : nat := Datatypes.S (efuel S).
 
   (* at the top of a default: lit_as_rvalue *)
-  Definition pclass_top (l : lit) (ty : cty) : option pclass := pclass_into true l ty.
+  Definition pclass_top (l : lit) (ty : cty) : option pclass := pclass_n cfuel true l ty.
 
   (* a const whose codegen type is the one a field of the same IDL type has (scalars, binary, enums, structs, typedefs)
-     or a string: the consts a default can refer to without PCPathConvert *)
+     or a string: the consts a default refers to BY NAME (a const of container type is lowered from its literal) *)
   Definition is_string_rty (t : rty) : bool := match t with RString | RFastStr => true | _ => false end.
   Definition const_simple (c : nat) : bool :=
     match nth_error (ls_consts S) c, ident_ty_of_const S c with
@@ -165,7 +193,7 @@ Section Class.
   Definition const_class_free (c : nat) : bool :=
     if const_simple c then
       match nth_error (ls_consts S) c, ident_ty_of_const S c with
-      | Some (_, l), Some it => match pclass_into (should_lazy_static S it) l it with None => true | Some _ => false end
+      | Some (_, l), Some it => match pclass_n cfuel (should_lazy_static S it) l it with None => true | Some _ => false end
       | _, _ => false
       end
     else true.
